@@ -52,6 +52,9 @@ class SynthesisDecider(ABC):
     @abc.abstractmethod
     def choose_options(self, alternatives: list[T], ctx: LocalSynthesisContext) -> T: ...
 
+    def start_tree(self) -> None:
+        """Called before a new tree is synthesised. Deciders that keep per-tree state reset it here."""
+
 
 class BaseDecider(SynthesisDecider):
     def __init__(self, random: RandomSource, grammar: Grammar):
@@ -149,6 +152,9 @@ class PositionIndependentGrowDecider(MaxDepthDecider):
         super().__init__(random, grammar, max_depth)
         # With a concrete starting symbol the first choice of a tree is not made at expansions == 0.
         self.expanding = True
+
+    def start_tree(self) -> None:
+        self.expanding = True  # expanding until a maximum depth is achieved
 
     def choose_production_alternatives(self, ty: type, alternatives: list[type], ctx: LocalSynthesisContext) -> type:
         assert len(alternatives) > 0, "No alternatives presented"
